@@ -8,25 +8,20 @@ use crate::{
 pub fn parser(
     sequence: Recursive<'_, Token, UntypedExpr, ParseError>,
 ) -> impl Parser<Token, UntypedExpr, Error = ParseError> + '_ {
-    choice((
-        sequence
-            .clone()
-            .delimited_by(just(Token::LeftBrace), just(Token::RightBrace)),
-        sequence.clone().delimited_by(
-            choice((just(Token::LeftParen), just(Token::NewLineLeftParen))),
-            just(Token::RightParen),
-        ),
-    ))
-    .map_with_span(|e, span| {
-        if matches!(e, UntypedExpr::Assignment { .. }) {
-            UntypedExpr::Sequence {
-                location: span,
-                expressions: vec![e],
+    // NOTE: the parenthesised form `( .. )` is parsed together with tuples, see `tuple::or_block`.
+    sequence
+        .clone()
+        .delimited_by(just(Token::LeftBrace), just(Token::RightBrace))
+        .map_with_span(|e, span| {
+            if matches!(e, UntypedExpr::Assignment { .. }) {
+                UntypedExpr::Sequence {
+                    location: span,
+                    expressions: vec![e],
+                }
+            } else {
+                e
             }
-        } else {
-            e
-        }
-    })
+        })
 }
 
 #[cfg(test)]
